@@ -197,7 +197,20 @@ pub fn build(c: &RawCase) -> (Vec<Ln>, Builder) {
         prog.push(Ln::st(St::Equ(format!("ce{}", i), E::num(*v))));
     }
     prog.push(Ln::st(St::Define("CD0".into())));
-    prog.extend(b.body(&c.top, true, 0));
+    // every third program defines a macro in front of the constructs and calls it behind them (and in
+    // between): whatever unselected text contains — macro definitions too — the macro stays what it was
+    let with_macro = c.top.len() == 2;
+    if with_macro {
+        prog.push(Ln::st(St::MacroDef("c08_pre".into(), vec![Ln::st(St::Data(DKind::Dw, vec![DItem::Ex(E::Num(0x0c08))])), Ln::st(St::Ins("nop".into(), vec![]))])));
+        let first = b.body(&c.top[..1], true, 0);
+        prog.extend(first);
+        prog.push(Ln::st(St::Call("C08_Pre".into(), vec![])));
+        let rest = b.body(&c.top[1..], true, 0);
+        prog.extend(rest);
+        prog.push(Ln::st(St::Call("c08_pre".into(), vec![])));
+    } else {
+        prog.extend(b.body(&c.top, true, 0));
+    }
     prog.push(Ln::with_label("after_all", St::Data(DKind::Dw, vec![DItem::Ex(E::sym("ce0")), DItem::Ex(E::Num(0xa5a5))])));
     for chunk in b.read_back.clone().chunks(4) {
         prog.push(Ln::st(St::Data(DKind::Dw, chunk.iter().map(|n| DItem::Ex(E::sym(n))).collect())));
